@@ -8,6 +8,8 @@ import (
 	"fmt"
 	"io"
 	"math/rand"
+	"net/http"
+	"net/http/httptest"
 	"net/url"
 	"sort"
 	"strings"
@@ -186,7 +188,16 @@ func analyseRedirect(in *bInput, sp *saml2.SAMLServiceProvider, u, relay string,
 		if dv, err := url.QueryUnescape(v1); err == nil {
 			if comp, err := base64.StdEncoding.DecodeString(dv); err == nil {
 				if inflated, err := io.ReadAll(flate.NewReader(bytes.NewReader(comp))); err == nil {
-					o.RequestOK = bytes.Equal(inflated, doc)
+					if doc != nil {
+						o.RequestOK = bytes.Equal(inflated, doc)
+					} else {
+						// the builder made the request itself: it must be an AuthnRequest for this SP, signed iff configured
+						d := etree.NewDocument()
+						o.RequestOK = d.ReadFromBytes(inflated) == nil && d.Root() != nil && d.Root().Tag == "AuthnRequest" &&
+							d.Root().SelectAttrValue("Destination", "") == sp.IdentityProviderSSOURL &&
+							d.Root().SelectAttrValue("AssertionConsumerServiceURL", "") == sp.AssertionConsumerServiceURL &&
+							(d.Root().FindElement("./Signature") != nil) == in.SignReq
+					}
 				}
 			}
 		}
@@ -341,6 +352,8 @@ func (Bindings) Run(c *orch.Case) *orch.Outcome {
 			if in.Binding == "redirect" {
 				doc, err = sp.BuildAuthRequestDocumentNoSig()
 			}
+		case "authURL", "authRedirect":
+			// the library builds the request itself
 		case "authnFromDoc":
 			doc, err = sp.BuildAuthRequestDocument()
 		case "logoutReq":
@@ -368,6 +381,18 @@ func (Bindings) Run(c *orch.Case) *orch.Outcome {
 				u, err = sp.BuildAuthURLRedirect(relay, doc)
 			case "authnPostBinding":
 				u, err = sp.BuildAuthURLFromDocument(relay, doc)
+			case "authURL":
+				u, err = sp.BuildAuthURL(relay)
+			case "authRedirect":
+				rec := httptest.NewRecorder()
+				req := httptest.NewRequest("GET", "https://sp.example.com/login", nil)
+				err = sp.AuthRedirect(rec, req, relay)
+				if err == nil {
+					if rec.Code != http.StatusFound {
+						err = fmt.Errorf("status %d", rec.Code)
+					}
+					u = rec.Header().Get("Location")
+				}
 			case "logoutReq":
 				u, err = sp.BuildLogoutURLRedirect(relay, doc)
 			}
